@@ -269,10 +269,12 @@ def alphabet(n, K, seed, tau_from=0):
         dense.append(x)
     rep = [r] * n
     rep[tau_from + m // 3] = 2 * PI + 0.61
+    # every position beyond one period, both signs (controlled rotations are 4*pi-periodic: a 2*pi wrap is visible there)
+    all2pi = [r] * tau_from + [(2 * PI + 0.3 + 0.05 * (i % 5)) * (1 if i % 2 == 0 else -1) for i in range(m)]
     alt = [g3 if i % 2 == 0 else -g3 for i in range(n)]
     hole = list(dense)
     hole[tau_from + m // 2] = 0.0   # full support minus one term: the cached positions of the later terms shift by one
-    full = [("zero", [0.0] * n), ("alt", alt), ("hot-mid", hot(m // 2, -g2)), ("rep-2pi", rep), ("dense", dense),
+    full = [("zero", [0.0] * n), ("alt", alt), ("hot-mid", hot(m // 2, -g2)), ("rep-2pi", rep), ("all-2pi", all2pi), ("dense", dense),
             ("dense-one-zero", hole), ("equal", [g1] * n), ("hot-first", hot(0, g1)), ("hot-last", hot(m - 1, g3))]
     out, seen = [], set()
     for name, v in full[:K]:
@@ -407,6 +409,17 @@ class Graph:
         key = (tuple(ops), tuple(vec))
         if key not in self.fresh_cache:
             try:
+                if self.cls == "VarCirc":
+                    # user circuit: the reference is the user's own gate list with the values written in literally (a second
+                    # VariationalCircuitAnsatz would share any error of the parameter assignment)
+                    from tangelo.linq import Circuit, Gate
+                    it = iter(vec)
+                    gl = [Gate(g.name, g.target, g.control, (next(it) if g.is_variational else g.parameter), g.is_variational)
+                          for g in user_circuit()._gates]
+                    if len(vec) != sum(1 for g in gl if g.is_variational):
+                        raise ValueError("wrong number of values for the user circuit")
+                    self.fresh_cache[key] = (Circuit(gl), None)
+                    return self.fresh_cache[key]
                 b = make_ansatz(self.inst, ops)
                 b.build_circuit(list(vec))
                 ref = None
@@ -608,7 +621,7 @@ MAX_STATES = 6000
 
 
 def tier_params(tier):
-    return (6, 2) if tier == "quick" else (9, 3)
+    return (7, 2) if tier == "quick" else (10, 3)
 
 
 def shards(tier, seed):
@@ -637,6 +650,23 @@ def run_shard(shard):
     inst = shard["inst"]
     g = Graph(inst, shard["K"], shard["depth"], shard["seed"])
     start = {"start": "build", "ops": list(inst.get("start_ops", []))}
+    try:
+        with quiet():
+            a_probe = make_ansatz(inst, start["ops"])
+            n_probe = int(a_probe.n_var_params)
+            a_probe.build_circuit(list(dict(g.vectors(n_probe))["dense" if n_probe else "empty"]))
+    except Exception as e:
+        # the very first build of the instance fails on a valid vector: a finding, not a harness error
+        acc = Acc()
+        acc.states += 1
+        acc.transitions += 1
+        acc.ev()
+        acc.nt(("start-build", g.lab))
+        acc.nt(("start-build-raises", g.lab))
+        acc.violation(f"{g.call}.build_circuit/exception-on-valid-vector/first-build:{type(e).__name__}",
+                      {"inst": inst, "K": shard["K"], "seed": shard["seed"], "hist": [dict(start, vec=[], name="dense")]},
+                      {"error": repr(e)[:300], "start_ops": start["ops"]}, group=f"{g.call}.build_circuit/exception-on-valid-vector")
+        return acc
     with quiet():
         # the start descriptor carries its vector so that histories are self-contained
         a0 = make_ansatz(inst, start["ops"])
@@ -702,7 +732,7 @@ def bounds(tier, seed):
 def selftest():
     SV.selftest()
     for n in (1, 2, 3, 9, 34):
-        for K in (6, 9):
+        for K in (7, 10):
             vs = alphabet(n, K, 0, tau_from=(16 if n == 34 else 0))
             assert all(len(v) == n for _, v in vs) and len({tuple(v) for _, v in vs}) == len(vs)
             d = dict(vs)
